@@ -235,6 +235,11 @@ func batch(args []string) {
 		for k, v := range res.SwitchPairs {
 			sum.SwitchPairs[world.SiteName(int(k[0]))+">"+world.SiteName(int(k[1]))] += v
 		}
+		if lf != nil && os.Getenv("SIM_DUMP") != "" {
+			for _, l := range res.Trace {
+				fmt.Fprintf(os.Stderr, "%d| %s\n", idx, l)
+			}
+		}
 		if lf != nil {
 			h := uint64(0)
 			for _, l := range res.Trace {
